@@ -6,6 +6,7 @@ from rules import misc as M
 def run(ctx):
     LM.flw1_limit_arithmetic(ctx)
     M.ord2_offset_applied_once(ctx)
+    M.ord13_sort_structure(ctx)
     return ctx.finish(
         'MIR dataflow: interprocedural taint of values read from LimitClause fields (the limit may '
         'be the sentinel u64::MAX); no unchecked + / * on such a value and no unchecked subtraction '
